@@ -98,6 +98,7 @@ func targets(c Config, m model, thorough bool) []tgt {
 		add("/"+e, true)              // doubled leading slash
 		add(strings.Replace(e, "/", "//", 2), true)
 		add(e+"%2F", true)                 // encoded trailing slash
+		add(e+"%2f", true)                 // the same with lower-case hex
 		add(e+"?q=1", true)                // query
 		add("http://example.test"+e, true) // absolute form
 		add(e+".html", true)
@@ -115,6 +116,7 @@ func targets(c Config, m model, thorough bool) []tgt {
 			if last != "" {
 				// first character of the last segment percent-encoded
 				add(enc(n[:len(n)-len(last)])+fmt.Sprintf("%%%02X", last[0])+enc(last[1:]), true)
+				add(enc(n[:len(n)-len(last)])+fmt.Sprintf("%%%02x", last[0])+enc(last[1:]), true)
 			}
 			if up := strings.ToUpper(n); up != n {
 				add(enc(up), true)
@@ -373,6 +375,181 @@ func apiConfigs(kind string, a axes) [][]Config {
 	return groups
 }
 
+// ---- edge values ----
+//
+// Legal but rare VALUES, judged by the same oracle as everything else. They are crossed one at a
+// time (one option / the document carries the edge value, the rest is the baseline) with
+// next handler present/absent and default/custom template, and with every derived request.
+
+// edgeDocs: content of the served spec document - must come back byte for byte.
+func edgeDocs() []string {
+	long := strings.Repeat(`{"k":"100% %s {{.}} <b> 日本😀"},`+"\n", 6000) // ~ 200 KiB
+	return []string{
+		`{"description":"100% or nothing, %s %d %v %x %2F a%20b %","version":"1.0%"}`, // printf verbs, '%' before a closing quote
+		"%", "%%", "%!s(MISSING)", "%[1]s %*d %#v %+q",
+		`{"x":"{{.}} {{ .Title }} {{/* c */}} {{define \"a\"}}b{{end}}"}`, // template actions
+		"<!DOCTYPE html><html><script>alert(1)</script>&amp;&lt;</html>",  // HTML
+		"a\x00b\x7fc\rd\ne\tf\x1b[0m",                                     // NUL, DEL, CR, LF, TAB, ESC
+		"\xff\xfe\x80 bad utf8 \xc3( \xed\xa0\x80 %s \xf0\x9f",            // invalid UTF-8 (alone and next to '%')
+		"\ufeff{\"bom\":\"\u2028\u2029 日本語 é 😀 \U0010FFFF\"}",             // BOM, line separators, beyond the BMP
+		long,
+		"", " ", "\n", "\r\n",
+		`\ \" ' \\n \u0000 $1 ${x} #{y} \0`, // backslashes, quotes, other interpolation syntaxes
+		"+&=;,*:#?/..{}[]|^~`",
+	}
+}
+
+// edgeTexts: free-text option values (titles).
+func edgeTexts() []string {
+	return []string{
+		"100% done %s %d %v %%", "%", "{{.}} {{ .Title }} {{/* x */}}", `a"b'c\d\\`, "日本語 é 😀 \U0010FFFF", " ",
+		"a\tb\r\nc", "a\x00b\x7fc", "\ufeffBOM\u2028LS\u2029PS", strings.Repeat("long title %s 日本 ", 600),
+		mk("Tq") + " 100% {{.}} 日本😀 \x00 \\", "a\xffb\xc3(" + mk("Tq"), "+&=;,*:#?/..{}", "</title><script>alert(1)</script>", "A Title", "a title",
+	}
+}
+
+// edgeSegs: values for path-like options (BasePath, Path, WithSpecPath, document name, WithUIBasePath, WithUIPath).
+func edgeSegs() []string {
+	return []string{
+		"my docs", " ", "100%", "%", "%%", "a%20b", "a%2fb", "a%2Fb", "%zz", "日本/ü", "😀", "Docs", "DOCS", "a;b=c,d", "a*b:c", "a#b?c", `a\b`,
+		"{id}", "{{.}}", "a.b-c[0]", "...", ".hidden", "a\tb", "a\nb\rc", "a\x00b", "a\x7fb", "\ufeffx\u2028", strings.Repeat("s", 3000),
+		"a+b&c=d", mk("Pq") + "%s日本", "a\xffb", "docs.json.bak", "swagger", "swagger.jsonx",
+	}
+}
+
+// edgeURLs: values for URL options (SpecURL, asset URLs, WithUISpecURL, OAuthCallbackURL).
+func edgeURLs() []string {
+	return []string{
+		"https://[::1]:8080/s.json", "http://127.0.0.1/x/s.json", "HTTPS://H.EXAMPLE/X/Spec.JSON", "/x/100%25.json", "/x/100%.json", "/x/a%2fb.json",
+		"/x/A%2Fb.JSON", "/x/%E6%97%A5%e6%9c%ac.json", "/x/a b.json", "/x/日本.json", "/x/😀.json", "/x/a+b&c=d;e,f.json", "/x/{{.}}.json", "/x/%s.json",
+		"javascript:alert(1)", "/x/" + strings.Repeat("l", 2000) + ".json", "/x/a\tb\nc.json", "/x/a\x00b.json", "/x/a\xffb.json", " ", "/x/s.json?a=%20&b=%zz#%",
+		"/x/\ufeff\u2028.json", "/x/" + mk("Sq") + "%41日本.json", "/X/SPEC.JSON", "/x/spec.JSON",
+	}
+}
+
+func edgeDirectConfigs() []Config {
+	var out []Config
+	nexts := []bool{true, false}
+	// Spec: document content x {root, /base + other document name} x next; path-like options one at a time
+	for _, d := range edgeDocs() {
+		for _, next := range nexts {
+			out = append(out,
+				Config{Kind: "spec", Next: next, SpecBytes: lit(d)},
+				Config{Kind: "spec", Next: next, SpecBase: "/base", SpecOpts: []KV{{"WithSpecPath", "x"}, {"WithSpecDocument", "openapi.json"}}, SpecBytes: lit(d)})
+		}
+	}
+	for _, next := range nexts {
+		out = append(out, Config{Kind: "spec", Next: next, SpecNil: true})
+	}
+	doc := `{"swagger":"2.0","info":{"title":"100% %s","version":"1"},"paths":{}}`
+	for _, sg := range edgeSegs() {
+		for _, next := range nexts {
+			out = append(out,
+				Config{Kind: "spec", Next: next, SpecBase: lit("/" + sg), SpecBytes: doc},
+				Config{Kind: "spec", Next: next, SpecOpts: []KV{{"WithSpecPath", lit(sg)}}, SpecBytes: doc},
+				Config{Kind: "spec", Next: next, SpecBase: "/base", SpecOpts: []KV{{"WithSpecDocument", lit(sg)}}, SpecBytes: doc})
+		}
+	}
+	// UI kinds
+	for _, kind := range []string{"redoc", "rapidoc", "swaggerui", "oauth2cb"} {
+		for _, tpl := range []string{"", customTemplate(kind)} {
+			for _, next := range nexts {
+				one := func(field, v string) {
+					o := map[string]string{field: lit(v)}
+					if tpl != "" {
+						o["Template"] = tpl
+					}
+					out = append(out, Config{Kind: kind, Next: next, Opts: o})
+				}
+				for _, t := range edgeTexts() {
+					one("Title", t)
+				}
+				for _, sg := range edgeSegs() {
+					one("BasePath", "/"+sg)
+					one("Path", sg)
+				}
+				for _, u := range edgeURLs() {
+					one("SpecURL", u)
+					if kind == "oauth2cb" {
+						one("OAuthCallbackURL", u)
+					}
+					o := map[string]string{}
+					for _, f := range kindURLFields(kind) {
+						o[f] = lit(u)
+					}
+					if tpl != "" {
+						o["Template"] = tpl
+					}
+					out = append(out, Config{Kind: kind, Next: next, Opts: o})
+				}
+			}
+		}
+	}
+	return out
+}
+
+// edgeAPIGroups: the same value classes through the three API-handler flavours. The description's
+// title ends up inside the served document (doc.Raw) and on the page; the base path in the routes.
+func edgeAPIGroups() [][]Config {
+	var groups [][]Config
+	kinds := []string{"api-redoc", "api-rapidoc", "api-swaggerui"}
+	tpls := []string{unset, customTemplate("")}
+	variants := func(base Config) []Config {
+		var g []Config
+		for _, k := range kinds {
+			for _, tpl := range tpls {
+				for _, su := range []string{unset, "/x/spec.json"} {
+					c := base
+					c.Kind = k
+					c.UIOpts = append([]KV(nil), base.UIOpts...)
+					if su != unset {
+						c.UIOpts = append(c.UIOpts, KV{"WithUISpecURL", su})
+					}
+					if tpl != unset {
+						c.UIOpts = append(c.UIOpts, KV{"WithTemplate", tpl})
+					}
+					g = append(g, c)
+				}
+			}
+		}
+		return g
+	}
+	for _, t := range edgeTexts() {
+		if lit(t) != t || strings.Contains(t, "\x00") {
+			continue // a JSON document cannot carry invalid UTF-8; apib would alter it (outside the domain)
+		}
+		groups = append(groups, variants(Config{NoAPIBase: true, APITitle: t}))
+	}
+	for _, sg := range []string{"my docs", "100%", "a%20b", "日本", "Docs", "a;b=c", "{id}"} {
+		groups = append(groups, variants(Config{APIBase: "/" + sg}))
+	}
+	// options, one at a time, on the default description
+	var g []Config
+	for _, k := range kinds {
+		for _, tpl := range tpls {
+			one := func(opt, v string) {
+				c := Config{Kind: k, NoAPIBase: true, UIOpts: []KV{{opt, lit(v)}}}
+				if tpl != unset {
+					c.UIOpts = append(c.UIOpts, KV{"WithTemplate", tpl})
+				}
+				g = append(g, c)
+			}
+			for _, t := range edgeTexts() {
+				one("WithUITitle", t)
+			}
+			for _, sg := range edgeSegs() {
+				one("WithUIBasePath", "/"+sg)
+				one("WithUIPath", sg)
+			}
+			for _, u := range edgeURLs() {
+				one("WithUISpecURL", u)
+			}
+		}
+	}
+	groups = append(groups, g)
+	return groups
+}
+
 // ---- construction sequences ----
 
 // seqAlphabet is the stated list of configurations that are constructed together in one process:
@@ -567,6 +744,8 @@ func main() {
 	for _, k := range []string{"redoc", "rapidoc", "swaggerui", "oauth2cb"} {
 		direct = append(direct, directUIConfigs(k, a)...)
 	}
+	edgeDirect := edgeDirectConfigs()
+	direct = append(direct, edgeDirect...)
 	const chunk = 64
 	nChunks := (len(direct) + chunk - 1) / chunk
 	enum.Parallel(nChunks, r.OutOfTime, func(ci int) {
@@ -582,6 +761,12 @@ func main() {
 	for _, k := range []string{"api-redoc", "api-rapidoc", "api-swaggerui"} {
 		groups = append(groups, apiConfigs(k, a)...)
 	}
+	edgeAPI := edgeAPIGroups()
+	nEdgeAPI := 0
+	for _, g := range edgeAPI {
+		nEdgeAPI += len(g)
+	}
+	groups = append(groups, edgeAPI...)
 	enum.Parallel(len(groups), r.OutOfTime, func(gi int) {
 		t := &tally{outcomes: map[string]int64{}}
 		g := groups[gi]
@@ -600,6 +785,11 @@ func main() {
 		kinds = append(kinds, k)
 	}
 	sort.Strings(kinds)
+	r.Set("edge_values", map[string]any{
+		"document_contents": len(edgeDocs()), "free_text_values": len(edgeTexts()), "path_option_values": len(edgeSegs()), "url_option_values": len(edgeURLs()),
+		"direct_configurations": len(edgeDirect), "api_configurations": nEdgeAPI,
+		"classes":  "printf verbs and '%' runs, template actions, HTML, NUL/DEL/CR/LF/TAB/ESC, invalid UTF-8, BOM/U+2028/U+2029, runes beyond the BMP, ~200 KiB document / 3000-byte segment / 2000-byte URL, empty / single space / nil document, backslashes and quotes, reserved URL characters, upper/lower hex escapes, malformed escapes, IP-literal hosts, upper-case scheme and names differing in case, names that are prefixes of each other",
+		"crossing": "one option (or the document) carries the edge value, the rest is the baseline; x next present/absent x default/custom template x every derived request x methods"})
 	r.Set("construction_sequences", seqStats)
 	r.Set("configurations_per_kind", perKind)
 	r.Set("configurations", nConfigs)
@@ -613,5 +803,5 @@ func main() {
 	r.Assume("model.go is the reading of the property text: MUST locations only for absolute configurations of plain segments; relative / dot-segment / document-less / non-RFC spec URLs and non-GET methods are MAY",
 		"requests are produced by http.ReadRequest from a request line, so only origin-form, absolute-form and '*' targets occur",
 		"api kinds: 'handed to the next handler unmodified' is decided differentially against Context.RoutesHandler on a twin API of the same description")
-	r.Finish("full product of the stated option axes for Spec, Redoc, RapiDoc, SwaggerUI, SwaggerUIOAuth2Callback (with and without next handler) and for APIHandler / APIHandlerRapiDoc / APIHandlerSwaggerUI, x every request target derived from each configuration's document locations (exact, trailing slash, dot segments, doubled and encoded slashes, query, absolute form, every prefix, extensions, sibling, case, NUL/space suffix) plus fixed and operation paths, x methods; one evaluation = one request through the real handler (api kinds: plus the routes-only twin); non-trivial = the target is derived from a document location or a document was served (distinct by construction: configurations, targets and methods are enumerated without repetition). Plus construction sequences in one process over the stated 20-configuration alphabet (all ordered pairs A,B: build A, GET A's document, build B, GET A's document again; thorough also all ordered triples; the whole list built forward and backward with every member requested after the last construction): every answer must equal the answer of the same configuration built alone", true)
+	r.Finish("full product of the stated option axes for Spec, Redoc, RapiDoc, SwaggerUI, SwaggerUIOAuth2Callback (with and without next handler) and for APIHandler / APIHandlerRapiDoc / APIHandlerSwaggerUI, x every request target derived from each configuration's document locations (exact, trailing slash, dot segments, doubled and encoded slashes, query, absolute form, every prefix, extensions, sibling, case, NUL/space suffix) plus fixed and operation paths, x methods; one evaluation = one request through the real handler (api kinds: plus the routes-only twin); non-trivial = the target is derived from a document location or a document was served (distinct by construction: configurations, targets and methods are enumerated without repetition). Plus construction sequences in one process over the stated 20-configuration alphabet (all ordered pairs A,B: build A, GET A's document, build B, GET A's document again; thorough also all ordered triples; the whole list built forward and backward with every member requested after the last construction): every answer must equal the answer of the same configuration built alone. Plus edge values one-at-a-time (see edge_values): document contents that must be served byte for byte and option values with characters that are syntax of the surrounding formats", true)
 }
